@@ -11,6 +11,8 @@ Sub-checks
 """
 import math
 
+import json
+
 import numpy as np
 from hypothesis import strategies as st
 
@@ -570,7 +572,25 @@ def constructors_strategy():
             )
         )
 
-    return pick([2, 1, 3, 4, 2, 3]).flatmap(lambda m: pick(["from_preset", "from_size", "from_pruned"]).flatmap(lambda c: {"from_size": from_size, "from_preset": from_preset, "from_pruned": from_pruned}[c](m)))
+    def twins(case):
+        """A third of the list/dict-style cases get two atoms of the SAME element (and preset / sector tables) whose
+        radial grids differ but have the same number of shells: per-atom arguments must be resolved per atom, not per
+        (element, preset)."""
+        if len(case["atoms"]) < 2 or case["dseed"] % 3 or case["ctor"] == "from_size":
+            return case
+        case = json.loads(json.dumps(case))
+        case["atoms"][1]["z"] = case["atoms"][0]["z"]
+        g0 = case["rgrid"]["grids"][0]
+        case["rgrid"]["kind"] = "list"
+        case["rgrid"]["grids"][1] = {"r0": g0["r0"] * 1.37, "gaps": [g * 1.21 for g in g0["gaps"]], "w": [w * 0.9 for w in g0["w"]]}
+        if case["ctor"] == "from_preset" and case["preset"]["kind"] == "list":
+            case["preset"]["names"][1] = case["preset"]["names"][0]
+        if case["ctor"] == "from_pruned":
+            case["sectors"][1] = case["sectors"][0]
+        case["twin"] = True
+        return case
+
+    return pick([2, 1, 3, 4, 2, 3]).flatmap(lambda m: pick(["from_preset", "from_size", "from_pruned"]).flatmap(lambda c: {"from_size": from_size, "from_preset": from_preset, "from_pruned": from_pruned}[c](m))).map(twins)
 
 
 def body_constructors(case, ctx):
@@ -584,6 +604,8 @@ def body_constructors(case, ctx):
     at = _push_apart([a["xyz"] for a in atoms], 0.8)
     rotate, store, ctor = case["rotate"], case["store"], case["ctor"]
     distinct_z = sorted(set(int(z) for z in atnums))
+    if case.get("twin"):
+        ctx.cls("twin-atoms-same-element-different-rgrid")
 
     # ---- radial grids: the argument handed to the classmethod and the per-atom grid it must resolve to ------------
     spec = case["rgrid"]
